@@ -5,6 +5,7 @@ CONSTANTS
   Readers = {5, 6}
   Plans = {}
   RPlans = {}
+  RModes = {}
   InitVid = 2
   Policers = {7}
   PPlans = {}
